@@ -58,7 +58,8 @@ func runC07(c *Ctx) {
 		}
 		return ""
 	}}
-	up := "up12(size)"
+	upP := pUp(12, polyAtom("size"))
+	up := upP.String()
 
 	// ================= R1 =================
 	c.floor("C07.R1", 4)
@@ -78,13 +79,14 @@ func runC07(c *Ctx) {
 			n := g.Idx[st]
 			storeNodes = append(storeNodes, n)
 			val := z.Of(st.Val)
-			want := polyAtom("cursor").add(polyAtom(up), -1)
+			want := polyAtom("cursor").add(upP, -1)
 			fits := hasFact(g.FactsAt(n), func(f Fact) bool {
 				if f.Y == nil {
 					return false
 				}
-				l, r := z.Of(f.X).String(), z.Of(f.Y).String()
-				return f.Op == token.LEQ && l == up && r == "cursor" || f.Op == token.GEQ && r == up && l == "cursor"
+				l, r := z.Of(f.X), z.Of(f.Y)
+				cur := polyAtom("cursor")
+				return f.Op == token.LEQ && l.equal(upP) && r.equal(cur) || f.Op == token.GEQ && r.equal(upP) && l.equal(cur)
 			})
 			// no other store to the cursor between the test and this store is possible (single store), and the
 			// load used in the subtraction follows the test
@@ -154,7 +156,7 @@ func runC07(c *Ctx) {
 		// the rounded value: the AND/AND_NOT whose polynomial is up12(size)
 		var rounded []ssa.Value
 		for _, in := range x.Ins {
-			if b, ok := in.(*ssa.BinOp); ok && (b.Op == token.AND || b.Op == token.AND_NOT) && z.Of(b).String() == up {
+			if b, ok := in.(*ssa.BinOp); ok && (b.Op == token.AND || b.Op == token.AND_NOT) && z.Of(b).equal(upP) {
 				rounded = append(rounded, b)
 			}
 		}
@@ -254,7 +256,7 @@ func runC07(c *Ctx) {
 		bad = "MapRegion does not reserve exactly once"
 	} else {
 		call := gm.Ins[rc[0]].(*ssa.Call)
-		if z.Of(call.Common().Args[0]).String() != up {
+		if !z.Of(call.Common().Args[0]).equal(upP) {
 			bad = "MapRegion reserves " + z.Of(call.Common().Args[0]).String() + " bytes, not the page-rounded size it maps (" + up + ")"
 		}
 		// reservation error returned before mapping
@@ -268,7 +270,7 @@ func runC07(c *Ctx) {
 			if phi, ok := stripConv(gm.callArgs(mn)[0]).(*ssa.Phi); ok {
 				okInit := false
 				for _, e := range phi.Edges {
-					if z.Of(e).String() == "fdiv12("+z.defaultAtom(call)+"#0)" {
+					if z.Of(e).equal(pFdiv(12, polyAtom(z.defaultAtom(call)+"#0"))) {
 						okInit = true
 					}
 				}
@@ -279,7 +281,7 @@ func runC07(c *Ctx) {
 		}
 		for _, rn := range gm.Returns() {
 			rt := gm.Ins[rn].(*ssa.Return)
-			if isNilConst(rt.Results[1]) && z.Of(rt.Results[0]).String() != "fdiv12("+z.defaultAtom(call)+"#0)" && bad == "" {
+			if isNilConst(rt.Results[1]) && !z.Of(rt.Results[0]).equal(pFdiv(12, polyAtom(z.defaultAtom(call)+"#0"))) && bad == "" {
 				bad = "MapRegion does not return the page of the reserved address"
 			}
 		}
